@@ -649,11 +649,20 @@ func (w *World) planDone() bool {
 //go:norace
 func (w *World) RunMain() {
 	stuck := 0
+	idle := 0
 	for w.Steps < w.MaxSteps {
 		// the plan is complete and nothing is runnable: periodic timers (heartbeats) alone do
 		// not keep the main phase alive
 		if len(w.enabled()) == 0 {
 			if w.planDone() {
+				return
+			}
+			// nothing but periodic timers for a very long time while the plan does not finish (a
+			// task waits for something that never comes): the main phase must end all the same
+			idle++
+			if idle > 5000 {
+				w.Logf("main phase ends: the plan makes no progress, only timers fire")
+				w.Probes["tool-plan-made-no-progress"]++
 				return
 			}
 			// tasks blocked on locks and nothing to run: time alone frees no lock that a blocked
@@ -668,6 +677,7 @@ func (w *World) RunMain() {
 			}
 		} else {
 			stuck = 0
+			idle = 0
 		}
 		if !w.step(true) {
 			return
